@@ -132,7 +132,8 @@ Lemma cf_dec tf (Htf : 0 < tf) (D F ys : list cd) :
   on_grid P tf F -> strictly_inc P F -> chain tf F -> lsorted P tf (F ++ ys) -> Forall2 dec D F ->
   match cf tf (F ++ ys) with
   | Ok G => exists K K0 T restD restF, D = K ++ restD /\ F = K0 ++ restF /\ Forall2 dec K K0 /\
-                                       G = K0 ++ T /\ cf tf (D ++ ys) = Ok (K ++ T)
+                                       G = K0 ++ T /\ cf tf (D ++ ys) = Ok (K ++ T) /\
+                                       ((restD = [] /\ restF = []) \/ exists d f, restD = [d] /\ restF = [f])
   | Err e => cf tf (D ++ ys) = Err e
   end.
 Proof.
@@ -149,7 +150,7 @@ Proof.
   rewrite EF, ED. clear EF ED.
   destruct (exists_last_or_nil F) as [EF|(Finit & f & EF)]; subst F.
   - inversion HA; subst. cbn [rev]. destruct (fill tf (resample_acc tf [] ys)) as [G|e]; [|reflexivity].
-    exists [], [], G, [], []. repeat split; constructor.
+    exists [], [], G, [], []. split; [reflexivity|]. split; [reflexivity|]. split; [constructor|]. split; [reflexivity|]. split; [reflexivity|left; split; reflexivity].
   - destruct (Forall2_app_inv_r _ _ HA) as (Dinit & Dl & HAi & HAl & EDl).
     destruct Dl as [|d Dl']; [inversion HAl|].
     assert (Hdf : dec d f) by (inversion HAl; assumption).
@@ -163,21 +164,22 @@ Proof.
       destruct (fill_from tf f tl) as [rb|e]; cbn [bind]; [|reflexivity].
       exists (Dinit ++ [d]), (Finit ++ [f]), rb, [], []. rewrite !app_nil_r.
       split; [reflexivity|]. split; [reflexivity|]. split; [apply Forall2_app; [exact HAi|constructor; [split; assumption|constructor]]|].
-      split; rewrite <- app_assoc; reflexivity.
+      split; [rewrite <- app_assoc; reflexivity|]. split; [rewrite <- app_assoc; reflexivity|left; split; reflexivity].
     + (* the last bucket takes in new candles *)
       rewrite T1. destruct (resample_acc_head_t P merge tf ys f) as (h & tl & ET & Hth). rewrite ET.
       assert (CFh : chain tf (Finit ++ [h])) by (eapply chain_swap_last; [symmetry; exact Hth|exact CF]).
       assert (CDh : chain tf (Dinit ++ [h])) by (eapply chain_swap_last; [|exact CD]; congruence).
       rewrite (fill_split tf Htf Finit h tl CFh), (fill_split tf Htf Dinit h tl CDh).
       destruct (fill_from tf h tl) as [rb|e]; cbn [bind]; [|reflexivity].
-      exists Dinit, Finit, (h :: rb), [d], [f]. repeat split; assumption.
+      exists Dinit, Finit, (h :: rb), [d], [f]. split; [reflexivity|]. split; [reflexivity|]. split; [exact HAi|]. split; [reflexivity|]. split; [reflexivity|right; exists d, f; split; reflexivity].
 Qed.
 
 (* the two lemmas together: what an append does to a decorated collapsed-and-filled series *)
 Theorem cf_structure tf xs ys F D : 0 < tf -> sorted P (xs ++ ys) -> cf tf xs = Ok F -> Forall2 dec D F ->
   match cf tf (xs ++ ys) with
   | Ok G => exists K K0 T restD restF, D = K ++ restD /\ F = K0 ++ restF /\ Forall2 dec K K0 /\
-                                       G = K0 ++ T /\ cf tf (D ++ ys) = Ok (K ++ T)
+                                       G = K0 ++ T /\ cf tf (D ++ ys) = Ok (K ++ T) /\
+                                       ((restD = [] /\ restF = []) \/ exists d f, restD = [d] /\ restF = [f])
   | Err e => cf tf (D ++ ys) = Err e
   end.
 Proof.
@@ -274,7 +276,7 @@ Proof.
   destruct (canon_acc_dec F [] D HD) as (D' & ED & HA). cbn [app] in ED. subst D'.
   pose proof (cf_structure payload mrg (fillp NO) tf xs ys F D Htf Hs HF HA) as HS.
   destruct (cf tf (xs ++ ys)) as [G|e] eqn:EG; [|exact HS].
-  destruct HS as (K & K0 & T & restD & restF & ED & EF & HK & EGs & EM).
+  destruct HS as (K & K0 & T & restD & restF & ED & EF & HK & EGs & EM & _).
   exists (K ++ T). split; [exact EM|].
   rewrite (calculate_is_leaf NO I Hleaf calc Hpure).
   assert (HfG : Forall fresh G) by (eapply cf_fresh; [exact Htf|exact Hs|exact Hf|exact EG]).
@@ -295,3 +297,46 @@ Proof.
 Qed.
 
 End EngineFill.
+
+Section FillFinal.
+Context (NO : NumOps).
+Notation val := (val NO).
+Notation payload := (payload NO).
+Notation cd := (cd payload).
+Notation store := (store NO).
+Notation mrg := (Candle.merge NO).
+Notation cf := (cf payload mrg (fillp NO)).
+Variable I : ind NO.
+Variable calc : store -> Z -> res val.
+Notation canon := (canon NO I calc).
+Notation dec := (dec payload mrg (fillp NO)).
+
+(* no repainting on a filled collapsing timeframe: every candle but the last of the state
+   after xs - closed buckets and the fill candles between them, with their readings - is a
+   candle of the state after xs ++ ys *)
+Theorem filled_closed_buckets_final (tf : Z) (xs ys : list cd) (D D' : store) :
+  0 < tf -> sorted payload (xs ++ ys) ->
+  state_after_fill NO I calc tf xs D -> state_after_fill NO I calc tf (xs ++ ys) D' ->
+  exists tl, D' = removelast D ++ tl.
+Proof.
+  intros Htf Hs (F & HF & HD) (G & HG & HD').
+  destruct (canon_acc_dec NO I calc F [] D HD) as (D0 & ED & HA). cbn [app] in ED. subst D0.
+  pose proof (cf_structure payload mrg (fillp NO) tf xs ys F D Htf Hs HF HA) as HS. rewrite HG in HS.
+  destruct HS as (K & K0 & T & restD & restF & EDk & EFk & HK & EGs & _ & Hrest).
+  (* canon of the kept raw buckets is the kept part of D, and the first part of D' *)
+  unfold EngineProofs.canon in HD, HD'. rewrite EFk, canon_acc_app in HD. rewrite EGs, canon_acc_app in HD'.
+  destruct (EngineProofs.canon_acc NO I calc [] K0) as [mid|e] eqn:Emid; cbn [bind] in HD, HD'; [|discriminate].
+  destruct (canon_acc_dec NO I calc K0 [] mid Emid) as (m' & Em & HAm). cbn [app] in Em. subst m'.
+  destruct (canon_acc_dec NO I calc restF mid D HD) as (r1 & Er1 & _).
+  destruct (canon_acc_dec NO I calc T mid D' HD') as (r2 & Er2 & _).
+  assert (EK : mid = K).
+  { assert (L1 : List.length mid = List.length K) by (rewrite (F2_len _ _ _ HAm), (F2_len _ _ _ HK); reflexivity).
+    rewrite EDk in Er1. clear -Er1 L1. revert K Er1 L1. induction mid as [|a mid IH]; intros [|b K] Er L1; try discriminate; [reflexivity|].
+    cbn [app] in Er. injection Er as E1 E2. f_equal; [congruence|]. apply IH; [exact E2|cbn in L1; lia]. }
+  subst mid. rewrite EDk, Er2. destruct Hrest as [[-> ->]|(d & f & -> & ->)].
+  - rewrite app_nil_r. destruct (exists_last_or_nil K) as [->|(Ki & k & ->)].
+    + exists r2. reflexivity.
+    + rewrite removelast_last. exists (k :: r2). rewrite <- app_assoc. reflexivity.
+  - rewrite removelast_last. exists r2. reflexivity.
+Qed.
+End FillFinal.
